@@ -27,7 +27,8 @@ func runC20(s *kernel.Sim) {
 	length := tp.Range(10, 80)
 	mode := tp.Choose(4) // 0 steady+single change, 1 flapping, 2 random persistence, 3 long runs
 	script := make([]bool, 0, length)
-	cur := true
+	cur := !tp.Chance(1, 4) // mostly healthy at first; unhealthy from the very first check in a quarter of the runs
+	s.Knobs["first_observation"] = cur
 	for len(script) < length {
 		var run int
 		switch mode {
